@@ -107,6 +107,34 @@ pub struct FlatWrapped {
     pub inner: MultiRef<Attrs>,
 }
 
+/// a type of ANOTHER namespace than the struct it is flattened into: its prefix binding has to be hoisted with its attributes
+#[derive(Debug, Default, Clone, PartialEq, YaSerialize, YaDeserialize)]
+#[yaserde(prefix = "q", namespaces = {"q" = "http://zv.test/probe/other"}, rename = "Foreign")]
+pub struct Foreign {
+    #[yaserde(attribute = true, rename = "kind")]
+    pub kind: String,
+    #[yaserde(prefix = "q", rename = "code")]
+    pub code: String,
+}
+impl CheckRestrictions for Foreign {
+    fn check_restrictions(&self, r: Option<Rc<Restrictions>>) -> SoapResult<()> {
+        self.kind.check_restrictions(r.clone())?;
+        self.code.check_restrictions(r)
+    }
+}
+#[derive(Debug, Default, Clone, YaSerialize, YaDeserialize)]
+#[yaserde(prefix = "p", namespaces = {"p" = "http://zv.test/probe"}, rename = "FlatNs")]
+pub struct FlatNsBare {
+    #[yaserde(flatten = true)]
+    pub inner: Foreign,
+}
+#[derive(Debug, Default, Clone, YaSerialize, YaDeserialize)]
+#[yaserde(prefix = "p", namespaces = {"p" = "http://zv.test/probe"}, rename = "FlatNs")]
+pub struct FlatNsWrapped {
+    #[yaserde(flatten = true)]
+    pub inner: MultiRef<Foreign>,
+}
+
 fn text(class: &str) -> String {
     match class {
         "empty" => String::new(),
@@ -207,6 +235,14 @@ pub fn run(case: &Value) -> Vec<String> {
             obs("ser_flatten", ser(&fb), ser(&fw));
             let fxml = ser(&fb);
             obs("de_flatten", de_dbg::<FlatBare>(&fxml).replace("FlatBare", "Flat"), de_dbg::<FlatWrapped>(&fxml).replace("FlatWrapped", "Flat"));
+            // flattened member of another namespace: the prefix binding travels with the hoisted attributes
+            let foreign = Foreign { kind: t.clone(), code: t.clone() };
+            let nb = FlatNsBare { inner: foreign.clone() };
+            let nw = FlatNsWrapped { inner: MultiRef::new(foreign.clone()) };
+            obs("ser_flatten_ns", ser(&nb), ser(&nw));
+            let nxml = ser(&nb);
+            obs("de_flatten_ns", de_dbg::<FlatNsBare>(&nxml).replace("FlatNsBare", "FlatNs"), de_dbg::<FlatNsWrapped>(&nxml).replace("FlatNsWrapped", "FlatNs"));
+            obs("wellformed_flatten_ns", roxmltree::Document::parse(&ser(&nb)).is_ok().to_string(), roxmltree::Document::parse(&ser(&nw)).is_ok().to_string());
         }
         "nested" => {
             let a = Attrs { id: t.clone(), n: if attr { Some(2_147_483_647) } else { None }, label: t.clone() };
